@@ -175,8 +175,29 @@ func runTok(c *core.Ctx) {
 				}
 			}
 		}
+		// explicit put-backs of the token are the release, not something done while holding it
+		ownRelease := map[ssa.Instruction]bool{}
+		if u, isU := acq.(*ssa.UnOp); isU {
+			if ok, _ := tokenExplicit(fn, u); ok {
+				for _, r := range explicitReleases(fn, u) {
+					ownRelease[r] = true
+					// … and the state must not be touched after it went back
+					forwardScan(r, func(in ssa.Instruction) bool {
+						if in == ssa.Instruction(u) {
+							return true
+						}
+						if ci, isCI := in.(ssa.CallInstruction); isCI {
+							if sc := an.StaticCallee(ci.Common()); sc != nil && sc.Signature.Recv() != nil && isMergeState(sc.Signature.Recv().Type()) && acqs[an.LoadedValue(ci.Common().Args[0])] {
+								blocking = append(blocking, "state method "+sc.Name()+" called after the token was put back ("+P.Pos(in.Pos())+")")
+							}
+						}
+						return false
+					})
+				}
+			}
+		}
 		for _, op := range an.ChanOps(fn) {
-			if op.Instr == acq {
+			if op.Instr == acq || ownRelease[op.Instr] {
 				continue
 			}
 			if op.Kind == an.OpSend || op.Kind == an.OpRecv || (op.Kind == an.OpSelect && op.Select.Blocking) {
@@ -919,7 +940,16 @@ func runSlotRelease(c *core.Ctx) {
 			an.Region(sc, nil, func(so an.Occ) {
 				if cc, ok := so.In.(*ssa.Call); ok {
 					if b, ok := cc.Call.Value.(*ssa.Builtin); ok && b.Name() == "delete" && len(sc.Params) == 2 && so.Path(cc.Call.Args[1]) == "p:"+sc.Params[1].Name() {
-						dels = true
+						// … on every way out of the method (a release that one return skips leaves the slot behind)
+						all := true
+						for _, rb := range an.ReturnBlocks(sc) {
+							if sb := so.Site().Block(); !(sb == rb || sb.Dominates(rb)) {
+								all = false
+							}
+						}
+						if all {
+							dels = true
+						}
 					}
 				}
 			})
@@ -1068,6 +1098,7 @@ func runOkAgg(c *core.Ctx) {
 	// under "Accepted" and under "not Accepted"; a list is identified by the sites that feed it
 	polarity := map[*ssa.Call]bool{}
 	var accLists, rejLists []string
+	slotList := "" // the list of the children's replies that is split
 	an.Region(msgFn, nil, func(o an.Occ) {
 		call, ok := o.In.(*ssa.Call)
 		if !ok {
@@ -1079,6 +1110,9 @@ func runOkAgg(c *core.Ctx) {
 		}
 		for _, g := range an.Guards(call.Parent(), call.Block()) {
 			if strings.HasSuffix(an.PathOf(g.V), ".Accepted") {
+				if call.Parent() == msgFn {
+					slotList = strings.TrimSuffix(an.PathOf(g.V), "[*].Accepted")
+				}
 				polarity[call] = g.True
 				if g.True {
 					accLists = append(accLists, P.Pos(call.Pos()))
@@ -1136,6 +1170,7 @@ func runOkAgg(c *core.Ctx) {
 		return true
 	}
 	// return join(rejected) iff len(rejected) > 0, else join(accepted)
+	allWhenNoneRejected := false
 	okRet := false
 	detail := ""
 	// the function that chooses between the two lists: Msg, or a private helper it returns
@@ -1210,9 +1245,27 @@ func runOkAgg(c *core.Ctx) {
 		if guardedByLen && isRej {
 			okRet = true
 		}
+		// no list of accepted replies at all: with no rejecting reply every reply is an accepting
+		// one, so `join(all replies)` behind "the rejecting list is empty" is the accepted branch
+		if !isRej && slotList != "" && an.PathOf(arg) == slotList {
+			for _, g := range an.Guards(host, rb) {
+				bin, ok := g.V.(*ssa.BinOp)
+				if !ok {
+					continue
+				}
+				lp, ok := bin.X.(*ssa.Call)
+				if !ok || !strings.HasPrefix(an.PathOf(bin.X), "len(") || !onlyPolarity(lp.Call.Args[0], false) {
+					continue
+				}
+				fr := an.Frame{IsSubject: func(v ssa.Value) bool { return v == ssa.Value(lp) }, Term: func(v ssa.Value) (int64, bool) { return an.ConstInt(v) }}
+				if set, ok := fr.Atom(g.V, g.True); ok && set.Intersect(an.Range(0, an.PosInf)).Equal(an.Range(0, 0)) {
+					allWhenNoneRejected = true
+				}
+			}
+		}
 		detail += fmt.Sprintf("[join(rejecting replies only: %v) guardedByLen=%v] ", isRej, guardedByLen)
 	}
-	c.Check(okRet && len(accLists) == 1 && len(rejLists) == 1, nil, fname(c, msgFn), "verdict", P.Pos(msgFn.Pos()), "children's replies are split by Accepted; if any child rejected, the reply is built from the rejecting ones only (so it is rejecting and starts with the first rejecting reason), otherwise from the accepting ones",
+	c.Check(okRet && (len(accLists) == 1 || (len(accLists) == 0 && allWhenNoneRejected)) && len(rejLists) == 1, nil, fname(c, msgFn), "verdict", P.Pos(msgFn.Pos()), "children's replies are split by Accepted; if any child rejected, the reply is built from the rejecting ones only (so it is rejecting and starts with the first rejecting reason), otherwise from the accepting ones",
 		"the aggregated OK is not 'rejecting iff some child rejected, rejecting reasons first': "+detail)
 	// join: id and verdict from msgs[0], text = concatenation in order
 	var ctor *ssa.Call
